@@ -32,7 +32,8 @@ func (c17PatSuite) Gen(rng *Rng, tier string, w *bufio.Writer, stats *Stats) {
 	for i := 0; i < n; i++ {
 		fmt.Fprintf(w, "# case %d\n", i+1)
 		fmt.Fprintln(w, "graph")
-		nodes, _ := c17Graph(rng, w, i%6)
+		al := c17IDAlphabet((i / 6) % c17Alphabets)
+		nodes, _ := c17Graph(rng, w, i%6, al)
 		for q := 0; q < 5; q++ {
 			nexp := 1 + rng.Intn(3)
 			exps := make([]string, nexp)
@@ -49,7 +50,7 @@ func (c17PatSuite) Gen(rng *Rng, tier string, w *bufio.Writer, stats *Stats) {
 			if rng.Chance(1, 4) {
 				root = rng.Intn(nodes)
 			}
-			fmt.Fprintf(w, "pattern %d %d %s\n", root, 1+rng.Intn(4), strings.Join(exps, ";"))
+			fmt.Fprintf(w, "pattern %d %d %s\n", al.id(root), 1+rng.Intn(4), strings.Join(exps, ";"))
 			stats.Inc(fmt.Sprintf("gen.pattern_exps_%d", nexp))
 		}
 	}
@@ -69,7 +70,7 @@ func (r *c17PatRunner) Step(t []string, raw string) string {
 	if len(t) != 4 || t[0] != "pattern" || r.seq.db == nil {
 		return "bad-op"
 	}
-	root, e1 := strconv.Atoi(t[1])
+	root, e1 := strconv.ParseUint(t[1], 10, 64)
 	workers, e2 := strconv.Atoi(t[2])
 	if e1 != nil || e2 != nil || workers < 1 {
 		return "bad-op"
